@@ -6,7 +6,7 @@ One recorder wraps quick_tidal_dissipation / quick_dual_body_tidal_dissipation; 
       truncated tables are still non-negative, i.e. inside the truncation's validity range);
       I5 grouping: an independent straight sum over every (l,m,p,q) present in the real tables with its own -Im k_l(|w|)
       from the published compliance equals the grouped result;  I6 scalar == array element-wise, also when only some state inputs are arrays;  I7 the same state given as periods
-      instead of frequencies gives the same result, and tidal_scale / da_dt_scale / de_dt_scale / dspin_dt_scale act as pure factors
+      instead of frequencies gives the same result, and tidal_scale / da_dt_scale / de_dt_scale / dspin_dt_scale act as pure factors;  I8 the dictionary front ends (single/dual _from_dict_or_world_instance) return the functional API's result
  C11: energy balance, angular-momentum balance at zero obliquity, de/dt finite and exactly 0 at e=0, arrays == scalars
 The module is shared: checks/c11_*.py re-exports it with PROP='C11' and only the C11 monitors deciding.
 """
@@ -292,6 +292,23 @@ def eval_case(c):
                             V('derivative-scalar-vs-array', f'{nm}: {x!r} vs {y!r} between scalar and array calls (e={e!r})')
                 except ZeroDivisionError as ex:
                     V('ecc-derivative-e0-raises', f'scalar call raised ZeroDivisionError at e={e!r} while the array call returned')
+        # I8 the dictionary front end returns what the functional API returns for the same bodies and state
+        if finite:
+            from TidalPy.toolbox.quick_tides import single_dissipation_from_dict_or_world_instance as sd_wrap
+            fa = (lambda x: None if x is None else np.array([x, x * 1.0, x])) if c['array'] else (lambda x: x)
+            try:
+                cnt['calls'] += 1
+                rw = sd_wrap({'mass': Mh}, {'radius': R, 'mass': mass, 'gravity_surface': g, 'density_bulk': rho, 'moi': C}, viscosity=c['visc'], shear_modulus=c['mu'],
+                             rheology=rheo, eccentricity=fa(e), obliquity=fa(obl), orbital_frequency=fa(n), spin_frequency=fa(spin), max_tidal_order_l=c['lmax'],
+                             eccentricity_truncation_lvl=c['N'], fixed_k2=c['k2'], fixed_q=c['q'])
+            except ZeroDivisionError:
+                rw = None
+            if rw is not None:
+                for nm in (('tidal_heating', 'dUdM', 'dUdw', 'dUdO') if c10 else ('semi_major_axis_derivative', 'eccentricity_derivative', 'spin_rate_derivative')):
+                    x0, xw = first(r[nm]), first(rw[nm])
+                    cnt['identities_checked'] += 1
+                    if not (x0 == xw or (math.isnan(x0) and math.isnan(xw)) or abs(x0 - xw) <= 1e-13 * max(abs(x0), abs(xw))):
+                        V('dict-front-end-differs', f'{nm}: single_dissipation_from_dict_or_world_instance gives {xw!r} but quick_tidal_dissipation gives {x0!r} for the same bodies and state (kind={kind} rheo={rheo})')
         # I7 equivalent parameterisations: periods instead of frequencies, and the documented linear scale factors
         if finite and (spin is None or spin != 0.0):
             rs = np.random.default_rng([c.get('seed', 0), 10, 77, c.get('sub', 0)])
@@ -348,6 +365,25 @@ def eval_case(c):
             V('ecc-derivative-e0-raises' if e == 0.0 else 'quick-tides-raised', f'quick_dual_body_tidal_dissipation raised {type(ex).__name__} at e={e!r}')
             return {'status': 'violated', 'nontrivial': True, 'violations': viol, 'obs': {'raised': repr(ex)}, 'counters': cnt}
         da, de = first(r['semi_major_axis_derivative']), first(r['eccentricity_derivative'])
+        # I8 (dual): dictionary front end == functional API
+        try:
+            from TidalPy.toolbox.quick_tides import dual_dissipation_from_dict_or_world_instance as dd_wrap
+            cnt['calls'] += 1
+            rw = dd_wrap({'radius': R, 'mass': mass, 'gravity_surface': g, 'density_bulk': rho, 'moi': C},
+                         {'radius': R2, 'mass': m2, 'gravity_surface': g2, 'density_bulk': rho2, 'moi': 0.4 * m2 * R2 * R2},
+                         viscosities=(c['visc'], c['visc'] * 3), shear_moduli=(c['mu'], c['mu'] * 0.6), rheologies=rheos,
+                         obliquities=(f(obls[0]), f(obls[1])), spin_frequencies=(f(spins[0]), f(spins[1])),
+                         fixed_k2s=(c['k2'], c['k2'] * 0.5), fixed_qs=(c['q'], c['q'] * 2), eccentricity=f(e), orbital_frequency=f(n),
+                         max_tidal_order_l=c['lmax'], eccentricity_truncation_lvl=c['N'])
+            pairs = [(first(r[k][q_]), first(rw[k][q_]), f'{k}.{q_}') for k in ('host', 'secondary') for q_ in (('tidal_heating', 'dUdM', 'dUdw', 'dUdO') if c10 else ('spin_rate_derivative',))]
+            if not c10:
+                pairs += [(da, first(rw['semi_major_axis_derivative']), 'semi_major_axis_derivative'), (de, first(rw['eccentricity_derivative']), 'eccentricity_derivative')]
+            for x0, xw, nm in pairs:
+                cnt['identities_checked'] += 1
+                if not (x0 == xw or (math.isnan(x0) and math.isnan(xw)) or abs(x0 - xw) <= 1e-13 * max(abs(x0), abs(xw))):
+                    V('dict-front-end-differs', f'{nm}: dual_dissipation_from_dict_or_world_instance gives {xw!r} but quick_dual_body_tidal_dissipation gives {x0!r} for the same bodies and state')
+        except ZeroDivisionError:
+            pass
         Hs = [first(r[k]['tidal_heating']) for k in ('host', 'secondary')]
         dss = [first(r[k]['spin_rate_derivative']) for k in ('host', 'secondary')]
         dMs = [first(r[k]['dUdM']) for k in ('host', 'secondary')]
